@@ -96,7 +96,9 @@ pub fn check_final(case: &C04Case, tr: &Trace) -> Result<Vec<&'static str>, Fail
                 Indication::Finished(f) => f.report.condition,
                 _ => continue,
             };
-            if r.t >= t0 && matches!(c, Condition::FileChecksumFailure | Condition::FilesizeError) {
+            // (at the receiver: while the transaction that delivered the file is still open; a straggler arriving after its
+            // end starts a new transaction, which is C11's subject)
+            if r.t >= t0 && (e != p.to || r.t <= t_end) && matches!(c, Condition::FileChecksumFailure | Condition::FilesizeError) {
                 return Err(fail(
                     tr,
                     &format!("integrity-fault-after-success:{c:?}:{}", if e == p.to { "receiver" } else { "sender" }),
@@ -108,7 +110,7 @@ pub fn check_final(case: &C04Case, tr: &Trace) -> Result<Vec<&'static str>, Fail
     let mut first_resp: Option<Vec<FileStoreResponse>> = None;
     for d in tr.emitted(p.to, p.from) {
         if let Some(PDUPayload::Directive(Operations::Finished(f))) = d.pdu.as_ref().map(|x| &x.payload) {
-            if d.t < t0 {
+            if d.t < t0 || d.t > t_end {
                 continue;
             }
             if matches!(f.condition, Condition::FileChecksumFailure | Condition::FilesizeError) {
@@ -126,7 +128,7 @@ pub fn check_final(case: &C04Case, tr: &Trace) -> Result<Vec<&'static str>, Fail
         }
     }
     // success indications after the first must not differ either (a second finalisation shows up here)
-    let succ: Vec<_> = r_fin.iter().filter(|(_, f)| success(f)).collect();
+    let succ: Vec<_> = r_fin.iter().filter(|(t, f)| success(f) && *t <= t_end).collect();
     if succ.len() > 1 {
         return Err(fail(tr, "delivery-finalized-twice", format!("the receiver reported a successful delivery {} times: at {:?}", succ.len(), succ.iter().map(|x| x.0).collect::<Vec<_>>())));
     }
@@ -231,6 +233,22 @@ fn preload(sc: &mut Scenario, initial: usize) {
 
 /// late: list of item codes: 0 metadata, 1 eof, 2 prompt-nak, 3 prompt-keepalive, 10+i data segment i
 pub fn build_puppet(with_file: bool, null_checksum: bool, reqs: &[ReqSpec], late: &[u32], ack_fin: bool, nak: NakSpec, seed: u64) -> C04Case {
+    build_puppet_timed(with_file, null_checksum, reqs, late, None, ack_fin, None, nak, seed)
+}
+
+/// as `build_puppet`, with an explicit delivery time for every late PDU and for the ACK(Finished)
+#[allow(clippy::too_many_arguments)]
+pub fn build_puppet_timed(
+    with_file: bool,
+    null_checksum: bool,
+    reqs: &[ReqSpec],
+    late: &[u32],
+    times: Option<&[u64]>,
+    ack_fin: bool,
+    ack_at: Option<u64>,
+    nak: NakSpec,
+    seed: u64,
+) -> C04Case {
     let cfg = CfgSpec { seg: 32, max_count: 3, ti: 30, ta: 2, tn: 2, crc: seed % 3 == 0, closure: false, null_checksum, nak, handlers: vec![] };
     let mut sc = Scenario::two_entities(cfg.clone(), cfg);
     sc.entities[0].present = false;
@@ -264,7 +282,10 @@ pub fn build_puppet(with_file: bool, null_checksum: bool, reqs: &[ReqSpec], late
     }
     inject(&mut sc, 100, eof.clone());
     let mut t = 300;
-    for code in late {
+    for (li, code) in late.iter().enumerate() {
+        if let Some(ts) = times {
+            t = ts[li];
+        }
         let bytes = match code {
             0 => meta.clone(),
             1 => eof.clone(),
@@ -283,7 +304,7 @@ pub fn build_puppet(with_file: bool, null_checksum: bool, reqs: &[ReqSpec], late
         t += 20;
     }
     if ack_fin {
-        inject(&mut sc, 700, pup.ack_finished(Condition::NoError));
+        inject(&mut sc, ack_at.unwrap_or(700), pup.ack_finished(Condition::NoError));
     }
     sc.horizon_ms = 30_000;
     C04Case { sc, initial: 0 }
@@ -314,7 +335,7 @@ pub fn build_real(size: u32, null_checksum: bool, reqs: &[ReqSpec], lost: (u32, 
 pub fn run(ctx: &mut Ctx) {
     ctx.rule = "puppet sender vs real receiver: {file transfer, requests-only} x {Modular, Null} x 6 request lists (none, append, create+append, rename+create, append+failing delete+not performed, mkdir+create+append) x \
 every single late PDU and every ordered pair out of {Metadata, EOF, Prompt(NAK), Prompt(keep-alive), each data segment} delivered 200 ms after completion x ACK(Finished) sent or never x deferred/immediate NAK (exhaustive); \
-real sender vs real receiver: sizes {0, 40, 100} x checksum x request lists x ACK(EOF), Finished, ACK(Finished) each lost 0/1/2 times (27 combinations, exhaustive) x 2 NAK procedures. \
+the same with 1..5 stragglers at sampled moments of the whole Finished/ACK wait (incl. the millisecond of completion, of each Finished retransmission and of the ACK); real sender vs real receiver: sizes {0, 40, 100} x checksum x request lists x ACK(EOF), Finished, ACK(Finished) each lost 0/1/2 times (27 combinations, exhaustive) x 2 NAK procedures. \
 Non-trivial = at least one PDU other than ACK(Finished) reached the receive transaction between its first success and its end; distinct by scenario."
         .into();
     ctx.assumptions = vec![
@@ -376,6 +397,43 @@ Non-trivial = at least one PDU other than ACK(Finished) reached the receive tran
             }
         }
     }
+    // sampled: 1..5 stragglers at arbitrary moments of the receiver's Finished/ACK wait (completion at 100 ms, ACK timer 2 s x 3),
+    // also in the very millisecond of completion, of a Finished retransmission or of the ACK(Finished)
+    let seed = ctx.seed;
+    let reqsets2 = reqsets.clone();
+    let n = ctx.tier.pick(6_000u64, 200_000);
+    ctx.section = "puppet-late-pdus-timed".into();
+    ctx.drive_indexed(&part, n, false, move |i| {
+        let mut rng = Prng::new(mix(seed ^ 0xC04_71, i));
+        let with_file = rng.chance(3, 4);
+        let null = rng.chance(1, 3);
+        let mut reqs = rng.pick(&reqsets2).clone();
+        if !with_file && reqs.is_empty() {
+            reqs = reqsets2[1].clone();
+        }
+        let n_late = 1 + rng.below(5) as usize;
+        let mut late = vec![];
+        let mut times = vec![];
+        for _ in 0..n_late {
+            late.push(*rng.pick(if with_file { &[0u32, 1, 2, 3, 10, 11, 12][..] } else { &[0u32, 1, 2, 3][..] }));
+            times.push(match rng.below(6) {
+                0 => 100 + rng.below(4),
+                1 => 2098 + rng.below(6),
+                2 => 4098 + rng.below(6),
+                3 => 6095 + rng.below(10),
+                _ => 100 + rng.below(7000),
+            });
+        }
+        times.sort();
+        let ack_fin = rng.chance(2, 3);
+        let ack_at = match rng.below(4) {
+            0 => 100 + rng.below(5),
+            1 => 2100 + rng.below(3),
+            _ => 100 + rng.below(6500),
+        };
+        let nak = if rng.chance(1, 2) { NakSpec { immediate: false, delay_ms: 0 } } else { NakSpec { immediate: true, delay_ms: *rng.pick(&[0u64, 50]) } };
+        build_puppet_timed(with_file, null, &reqs, &late, Some(&times), ack_fin, Some(ack_at), nak, rng.next())
+    });
     ctx.section = "real-sender-handshake-losses".into();
     ctx.drive_list(&part, cases, true);
     ctx.section.clear();
